@@ -184,10 +184,10 @@ def run_case(case):
                 for j in range(4):
                     a = _ravel_time(mean_p[j], i)
                     b = np.asarray(sol_f.u.mean[j][i])
-                    note("pytree_vs_flat_mean", float(np.max(np.abs(a - b) / (np.abs(b) + 1e-12))))
+                    note("pytree_vs_flat_mean", float(np.max(np.abs(a - b) / (np.abs(b) + 1e-9 * (1 + np.max(np.abs(b)))))), tol=1e-8)
                     sa = np.asarray(std_p[j][i]).reshape(-1) if fact == "isotropic" else _ravel_time(std_p[j], i)
                     sb = np.asarray(sol_f.u.std[j][i]).reshape(-1)
-                    note("pytree_vs_flat_std", float(np.max(np.abs(sa - sb) / (np.abs(sb) + 1e-12 * (1 + np.max(np.abs(sb)))))), tol=1e-8)
+                    note("pytree_vs_flat_std", float(np.max(np.abs(sa - sb) / (np.abs(sb) + 1e-9 * (1 + np.max(np.abs(sb)))))), tol=1e-5 if case["cal"] == "dynamic" else 1e-7)
             note("pytree_vs_flat_scale", util.rel_err(np.asarray(sol_p.output_scale), np.asarray(sol_f.output_scale), floor=1e-300))
             if not np.array_equal(np.asarray(sol_p.num_steps), np.asarray(sol_f.num_steps)):
                 viols.append(util.viol("pytree_vs_flat_steps", "step counts differ between pytree and flat problem", tags=tags))
